@@ -712,3 +712,99 @@ def memoised_functions(chk):
                f.where(probs[0][0]) if probs else f.where(), detail="@%s: %s" % (memo[0], "; ".join(w for _, w in probs[:3])), construct=ident,
                text="memoised " + f.name)
     chk.ob("MEMO-0", "memoised functions examined (%d of %d functions)" % (k, n), True, "mpf:1", nontrivial=False)
+
+
+# --------------------------------------------------------------------------------------------------------- CONFIG-0
+_POS_CONFIG = """
+class A:
+    def __init__(self):
+        self._switches = self.config['ball_switches']
+        if self.config['jam_switch'] and self.config['jam_switch'] not in self._switches:
+            self._switches.append(self.config['jam_switch'])
+"""
+_MUTATORS = {"append", "add", "extend", "insert", "remove", "pop", "clear", "update", "sort", "reverse", "discard", "setdefault", "popitem",
+             "appendleft", "extendleft", "__setitem__", "__delitem__"}
+# in-place edits of validated config entries that the pinned tree makes on purpose (read and confirmed): key = function ident
+_CONFIG_CONFIRMED = {
+    "mpf/devices/timed_switch.py::TimedSwitch._initialize": "switches found by tag are added to the configured list once, at initialisation",
+    "mpf/devices/combo_switch.py::ComboSwitch._add_switch_handlers": "switches found by tag are added to the configured sets",
+    "mpf/devices/score_reel_group.py::ScoreReelGroup._initialize": "reels and chimes are configured left to right and used right to left",
+    "mpf/devices/sequence_shot.py::SequenceShot._initialize": "switch activations are appended to the configured event sequence once",
+}
+
+
+def _is_config_entry(e):
+    return isinstance(e, ast.Subscript) and src(e.value) == "self.config" and isinstance(e.ctx, ast.Load)
+
+
+def _config_mutations(cls_node, fn_node, cfg):
+    """(call, why): in-place mutation of a validated config entry - directly, through a local that still holds the entry where the call
+    runs, or through an attribute of self that any method of the class binds to a bare config entry."""
+    out = []
+    attr_alias = set()
+    if cls_node is not None:
+        for x in ast.walk(cls_node):
+            if isinstance(x, ast.Assign) and len(x.targets) == 1 and _is_config_entry(x.value) and isinstance(x.targets[0], ast.Attribute) and \
+                    src(x.targets[0].value) == "self":
+                attr_alias.add(x.targets[0].attr)
+    assigns = {}
+    for n in cfg.nodes:
+        if n.kind == "stmt" and isinstance(n.ast, (ast.Assign, ast.AugAssign, ast.AnnAssign)):
+            tg = n.ast.targets if isinstance(n.ast, ast.Assign) else [n.ast.target]
+            for t in tg:
+                for y in ast.walk(t):
+                    if isinstance(y, ast.Name):
+                        assigns.setdefault(y.id, []).append(n)
+        elif n.kind == "loop":
+            for y in ast.walk(n.ast.target):
+                if isinstance(y, ast.Name):
+                    assigns.setdefault(y.id, []).append(n)
+    for n in cfg.nodes:
+        if n.kind not in ("stmt", "test"):
+            continue
+        for c in n.calls():
+            if not (isinstance(c.func, ast.Attribute) and c.func.attr in _MUTATORS):
+                continue
+            r = c.func.value
+            if _is_config_entry(r):
+                out.append((c, "edits %s in place" % src(r)))
+            elif isinstance(r, ast.Attribute) and src(r.value) == "self" and r.attr in attr_alias:
+                out.append((c, "self.%s is the configured entry itself (bound without a copy): the edit changes the configuration" % r.attr))
+            elif isinstance(r, ast.Name) and r.id in assigns:
+                for d in assigns[r.id]:
+                    if d.kind == "stmt" and isinstance(d.ast, ast.Assign) and len(d.ast.targets) == 1 and isinstance(d.ast.targets[0], ast.Name) and \
+                            _is_config_entry(d.ast.value) and src(d.ast.value.value) == "self.config":
+                        others = [o.id for o in assigns[r.id] if o is not d]
+                        if d.id == n.id or cfg.path_avoiding(d.id, [n.id], others, ignore_exc=True) is not None:
+                            out.append((c, "%s still is %s where it is edited" % (r.id, src(d.ast.value))))
+                            break
+    return out
+
+
+def config_not_mutated(chk):
+    from sa.cfg import CFG
+    pc = ast.parse(_POS_CONFIG).body[0]
+    try:
+        if len(_config_mutations(pc, pc.body[0], CFG(pc.body[0]))) != 1:
+            chk.pending_errors.append("CONFIG-0 detector does not match its positive example")
+    except Exception as e:     # noqa
+        chk.pending_errors.append("CONFIG-0 positive example could not be analysed: %r" % (e,))
+    n = 0
+    for ident in sorted(_anchor_idents(chk)):
+        rel, qual = ident.split("::", 1)
+        f = chk.repo.try_func(rel, qual)
+        if f is None:
+            continue
+        if not any(isinstance(x, ast.Attribute) and x.attr in _MUTATORS for x in ast.walk(f.node)):
+            continue
+        n += 1
+        cls_node = f.cls.node if getattr(f, "cls", None) is not None else None
+        hits = _config_mutations(cls_node, f.node, f.cfg())
+        if ident in _CONFIG_CONFIRMED:
+            chk.ob("CONFIG-0", "in-place edit of the configuration in %s is a confirmed instance" % qual, True, f.where(), detail=_CONFIG_CONFIRMED[ident],
+                   construct=ident, text="confirmed configuration edit", nontrivial=False)
+            continue
+        for c, why in hits:
+            chk.ob("CONFIG-0", "a validated configuration entry is not edited in place (what is derived from it - a capacity, a list of switches - stays what was configured)",
+                   False, f.where(c), detail=why, construct=ident, text="configuration edited in place: " + src(c.func)[:50])
+    chk.ob("CONFIG-0", "functions with container edits examined for edits of configuration entries (%d)" % n, True, "mpf:1", nontrivial=False)
